@@ -3,10 +3,14 @@ module verifharness
 go 1.21.0
 
 require (
+	github.com/bits-and-blooms/bloom/v3 v3.0.1
+	github.com/buger/jsonparser v1.1.1
+	github.com/cespare/xxhash v1.1.0
 	github.com/fasthttp/router v1.4.1
 	github.com/klauspost/compress v1.17.11
 	github.com/siglens/siglens v0.0.0
 	github.com/sirupsen/logrus v1.9.3
+	github.com/valyala/bytebufferpool v1.0.0
 	github.com/valyala/fasthttp v1.58.0
 	google.golang.org/protobuf v1.33.0
 )
@@ -16,10 +20,7 @@ require (
 	github.com/beevik/etree v1.5.1 // indirect
 	github.com/beorn7/perks v1.0.1 // indirect
 	github.com/bits-and-blooms/bitset v1.2.0 // indirect
-	github.com/bits-and-blooms/bloom/v3 v3.0.1 // indirect
-	github.com/buger/jsonparser v1.1.1 // indirect
 	github.com/caio/go-tdigest/v4 v4.0.1 // indirect
-	github.com/cespare/xxhash v1.1.0 // indirect
 	github.com/cespare/xxhash/v2 v2.2.0 // indirect
 	github.com/dennwc/varint v1.0.0 // indirect
 	github.com/dustin/go-humanize v1.0.0 // indirect
@@ -55,7 +56,6 @@ require (
 	github.com/savsgio/gotils v0.0.0-20240704082632-aef3928b8a38 // indirect
 	github.com/siglens/go-hll v0.0.0-20250702141534-039cd711c944 // indirect
 	github.com/slack-go/slack v0.12.2 // indirect
-	github.com/valyala/bytebufferpool v1.0.0 // indirect
 	github.com/xwb1989/sqlparser v0.0.0-20180606152119-120387863bf2 // indirect
 	go.opentelemetry.io/otel v1.24.0 // indirect
 	go.opentelemetry.io/otel/exporters/prometheus v0.39.0 // indirect
